@@ -14,12 +14,15 @@ git -C /repo archive HEAD | tar -x -C "$W" --one-top-level=repo
 ln -s "$VERIF/golden" "$W/vdir/golden"
 cp "$VERIF/known-findings.txt" "$W/vdir/known-findings.txt"
 if [ -z "$SKIP_TESTS" ]; then
-    ( cd "$W/repo" && CARGO_NET_OFFLINE=true CARGO_TARGET_DIR=/tmp/mut/shared/test-target cargo test --workspace --no-fail-fast --offline > "$W/tests.out" 2>&1 )
+    ( cd "$W/repo" && CARGO_NET_OFFLINE=true CARGO_TARGET_DIR=/tmp/mut/shared/test-target flock /tmp/mut/shared/test.lock cargo test --workspace --no-fail-fast --offline > "$W/tests.out" 2>&1 )
     if grep -q "test result: FAILED\|^error" "$W/tests.out"; then echo "$ID EXISTING-TESTS-FAIL (not a valid mutant)"; rm -rf "$W/repo"; exit 3; fi
 fi
 cd "$VERIF/sim"
-CARGO_NET_OFFLINE=true CARGO_TARGET_DIR=/tmp/mut/shared/sim-target cargo build --release --offline -q --config "paths=[\"$W/repo\"]" 2>"$W/build.log" || { echo "$ID BUILD-FAILED"; tail -5 "$W/build.log"; exit 2; }
-cp /tmp/mut/shared/sim-target/release/abysim "$W/abysim"
+# private target directory (warm copy of the harness build) so that parallel runs cannot mix binaries
+cp -r "$VERIF/sim/target" "$W/target" 2>/dev/null
+CARGO_NET_OFFLINE=true CARGO_TARGET_DIR="$W/target" cargo build --release --offline -q --config "paths=[\"$W/repo\"]" 2>"$W/build.log" || { echo "$ID BUILD-FAILED"; tail -5 "$W/build.log"; rm -rf "$W/target"; exit 2; }
+cp "$W/target/release/abysim" "$W/abysim"
+rm -rf "$W/target"
 DET=""
 for P in "$@"; do
     ABYSIM_VERIF_DIR="$W/vdir" "$W/abysim" check "$P" quick > "$W/$P.out" 2>&1
